@@ -15,22 +15,25 @@ reader's probe loop for a hash `kh`: it returns exactly the positions of the slo
 hash, in insertion order — nothing is lost behind a collision chain or a wrap-around, nothing is
 returned twice, and the loop stops. -/
 theorem probe_find_all (slots : List Slot) (hpos : ∀ s ∈ slots, s.2 ≠ 0) (kh : Nat) :
-    probeAll (buildTable slots) kh = (slots.filter (fun s => s.1 = kh)).map (·.2) := by
-  sorry
+    probeAll (buildTable slots) kh = (slots.filter (fun s => s.1 = kh)).map (·.2) :=
+  (tblInv_buildTable slots hpos).reads kh
 
 /-- the table always keeps a free slot, so probing terminates at an empty slot, never by
 exhausting the table -/
 theorem buildTable_has_free (slots : List Slot) (hpos : ∀ s ∈ slots, s.2 ≠ 0) (h : slots ≠ []) :
     (buildTable slots).length = 2 * slots.length ∧
     ((buildTable slots).filter (fun s => s.2 = 0)).length = slots.length := by
-  sorry
+  have hinv := tblInv_buildTable slots hpos
+  have _ := h  -- not needed: for `slots = []` both sides are 0
+  have := hinv.free
+  exact ⟨hinv.len, by omega⟩
 
 /-- Dump → Make text round trip: parsing the dumped text gives back exactly the pairs, in order
 (keys and data may contain any bytes, including `\n`, `+`, `,`, `:`, `-`, `>`). -/
 theorem makeParse_dumpText (es : List (Bytes × Bytes))
     (hsz : ∀ e ∈ es, e.1.length < u32 ∧ e.2.length < u32) :
-    makeParse ((dumpText es).length + 1) (dumpText es) = some es := by
-  sorry
+    makeParse ((dumpText es).length + 1) (dumpText es) = some es :=
+  makeParse_dumpText_fuel es _ hsz (Nat.lt_succ_of_lt (length_le_dumpText es))
 
 /-- non-vacuity / sanity: three colliding slots in a table that wraps around -/
 example : probeAll (buildTable [(0x300, 2048), (0x300, 2060), (0x500, 2072), (0x300, 2084)]) 0x300
